@@ -16,8 +16,35 @@ import CoxeterVerif.Model.Tabulated
 -/
 namespace Tab
 
+/-! ### integer primitives written for kernel evaluation
+
+The kernel evaluates call-by-name and is fast on `Nat` literals only; the hot loops therefore
+call `Int.add/sub/mul` directly, force intermediate values to literals (`forceInt`) before
+they are used several times, and use bit sets of `Nat` for the combinatorial part.  -/
+
+/-- `forceInt x k = k x` (lemma `Tab.forceInt_eq` in Props/C18.lean): evaluate `x` to a literal
+    before handing it to `k` -/
+def forceInt {β : Type} (x : Int) (k : Int → β) : β :=
+  match x with
+  | .ofNat n => (match n with | 0 => k (.ofNat 0) | .succ m => k (.ofNat (.succ m)))
+  | .negSucc n => (match n with | 0 => k (.negSucc 0) | .succ m => k (.negSucc (.succ m)))
+
+/-- `a ≤ 0` -/
+def isNonpos : Int → Bool
+  | .ofNat n => Nat.beq n 0
+  | .negSucc _ => true
+/-- `a ≤ b` -/
+def intLe (a b : Int) : Bool := isNonpos (Int.sub a b)
+/-- `a < b` -/
+def intLt (a b : Int) : Bool := !(isNonpos (Int.sub b a))
+/-- `|a|` -/
+def intAbs : Int → Int
+  | .ofNat n => .ofNat n
+  | .negSucc n => .ofNat (Nat.succ n)
+
 /-! ### integer vector algebra (coordinates × 10¹⁸) -/
 
+def P3.zero : P3 := ⟨0, 0, 0⟩
 def P3.add (a b : P3) : P3 := ⟨a.x + b.x, a.y + b.y, a.z + b.z⟩
 def P3.sub (a b : P3) : P3 := ⟨a.x - b.x, a.y - b.y, a.z - b.z⟩
 def P3.smul (k : Int) (a : P3) : P3 := ⟨k * a.x, k * a.y, k * a.z⟩
@@ -25,10 +52,10 @@ def P3.dot (a b : P3) : Int := a.x * b.x + a.y * b.y + a.z * b.z
 def P3.cross (a b : P3) : P3 :=
   ⟨a.y * b.z - a.z * b.y, a.z * b.x - a.x * b.z, a.x * b.y - a.y * b.x⟩
 def P3.normSq (a : P3) : Int := a.dot a
+/-- determinant with rows `a b c` -/
 def det3 (a b c : P3) : Int := a.dot (b.cross c)
-def P3.zero : P3 := ⟨0, 0, 0⟩
 
-/-- 10¹⁸ : one coordinate unit -/
+/-- 10¹⁸ : one coordinate unit; also (10⁻⁹)² in squared coordinate units -/
 def unit18 : Int := 1000000000000000000
 /-- 10⁹ -/
 def e9 : Int := 1000000000
@@ -37,14 +64,10 @@ def sixUnitVol : Int := 6000000000000000000000000000000000000000000000000000000
 /-- 6·10⁴⁵ : six times 10⁻⁹ of a unit volume -/
 def sixVolTol : Int := 6000000000000000000000000000000000000000000000
 
-def intLe (a b : Int) : Bool := decide (a ≤ b)
-def intLt (a b : Int) : Bool := decide (a < b)
-def intAbs (a : Int) : Int := if a < 0 then -a else a
-
-/-- `a` and `b` (squared lengths) agree within 2·10⁻⁹ relative to `a` -/
+/-- squared lengths `a`, `b` agree within 2·10⁻⁹ relative to `a` (lengths within 10⁻⁹) -/
 def nearSq (a b : Int) : Bool := intLe (intAbs (b - a) * e9) (2 * a)
 
-/-- ratios `a/B` and `a0/B0` (positive denominators) agree within 2·10⁻⁹ relative -/
+/-- ratios `a/B` and `a0/B0` (positive denominators) agree within 2·10⁻⁹ relative to `a0/B0` -/
 def nearRatio (a0 B0 a B : Int) : Bool :=
   intLe (intAbs (a * B0 - a0 * B) * e9) (2 * a0 * B)
 
@@ -65,37 +88,59 @@ where
 def cycPairs2 {β : Type} (l : List β) : List (β × β) :=
   l.zip (l.drop 2 ++ l.take 2)
 
-/-- a directed edge `a → b` as one number (indices are < 4096) -/
-def edgeCode (ab : Nat × Nat) : Nat := ab.1 * 4096 + ab.2
-def edgeCodeRev (ab : Nat × Nat) : Nat := ab.2 * 4096 + ab.1
-
-def cnt (c : Nat) : List Nat → Nat
-  | [] => 0
-  | x :: t => cond (Nat.beq x c) (cnt c t + 1) (cnt c t)
-
+/-- all directed edges `a → b` of the faces, each face walked in its stored orientation -/
 def dirEdges (e : Entry) : List (Nat × Nat) := e.faces.flatMap cycPairs
-
-/-- every face index is a vertex index, and every vertex is used by some face -/
-def usesExactlyVerts (e : Entry) : Bool :=
-  let n := e.verts.length
-  let idx := e.faces.flatMap id
-  idx.all (fun i => Nat.blt i n) && (List.range n).all (fun i => Nat.blt 0 (cnt i idx))
-
-/-- closed oriented surface: faces have ≥ 3 corners, no directed edge is a loop or occurs
-    twice, and every directed edge `a → b` has exactly one partner `b → a` -/
-def closedOriented (e : Entry) : Bool :=
-  let es := dirEdges e
-  let fw := es.map edgeCode
-  let bw := es.map edgeCodeRev
-  e.faces.all (fun f => Nat.ble 3 f.length)
-    && es.all (fun ab => !(Nat.beq ab.1 ab.2))
-    && fw.all (fun c => Nat.beq (cnt c fw) 1)
-    && bw.all (fun c => Nat.beq (cnt c fw) 1)
 
 def numV (e : Entry) : Nat := e.verts.length
 def numF (e : Entry) : Nat := e.faces.length
 /-- twice the number of edges = number of directed edges -/
 def numE2 (e : Entry) : Nat := (dirEdges e).length
+
+/-- number of occurrences -/
+def cnt (c : Nat) : List Nat → Nat
+  | [] => 0
+  | x :: t => cond (Nat.beq x c) (cnt c t + 1) (cnt c t)
+
+/-- a directed edge as one number (vertex indices are < 4096, see `usesExactlyVerts`) -/
+def edgeCode (ab : Nat × Nat) : Nat := ab.1 * 4096 + ab.2
+def edgeCodeRev (ab : Nat × Nat) : Nat := ab.2 * 4096 + ab.1
+
+/-- `Σ 2^c` with multiplicity -/
+def bitSum (l : List Nat) : Nat := l.foldl (fun acc c => Nat.add acc (Nat.shiftLeft 1 c)) 0
+/-- the set `{c}` as a bit set, `⋁ 2^c` -/
+def bitOr (l : List Nat) : Nat := l.foldl (fun acc c => Nat.lor acc (Nat.shiftLeft 1 c)) 0
+
+/-- **reference definition** (quadratic; compared with the bit-set version by the driver on
+    every entry and on corrupted certificates): every face index is a vertex index and every
+    vertex is used -/
+def usesExactlyVertsRef (e : Entry) : Bool :=
+  let n := e.verts.length
+  let idx := e.faces.flatMap id
+  Nat.ble n 4096 && idx.all (fun i => Nat.blt i n) && (List.range n).all (fun i => Nat.blt 0 (cnt i idx))
+
+/-- the faces use exactly the vertices `0 … V−1`: the bit set of the face indices is `2^V − 1` -/
+def usesExactlyVerts (e : Entry) : Bool :=
+  Nat.ble e.verts.length 4096
+    && Nat.beq (bitOr (e.faces.flatMap id)) (Nat.sub (Nat.shiftLeft 1 e.verts.length) 1)
+
+/-- **reference definition**: faces have ≥ 3 corners, no directed edge is a loop or occurs
+    twice, and every directed edge `a → b` has exactly one partner `b → a` -/
+def closedOrientedRef (e : Entry) : Bool :=
+  let es := dirEdges e
+  let fw := es.map edgeCode
+  e.faces.all (fun f => Nat.ble 3 f.length)
+    && es.all (fun ab => !(Nat.beq ab.1 ab.2))
+    && fw.all (fun c => Nat.beq (cnt c fw) 1)
+    && (es.map edgeCodeRev).all (fun c => Nat.beq (cnt c fw) 1)
+
+/-- closed oriented surface, linear time: `Σ 2^code = ⋁ 2^code` (no directed edge twice) and
+    the set of directed edges equals the set of reversed edges (each has its partner; it is
+    unique because no directed edge occurs twice) -/
+def closedOriented (e : Entry) : Bool :=
+  e.faces.all (fun f => Nat.ble 3 f.length)
+    && (dirEdges e).all (fun ab => !(Nat.beq ab.1 ab.2))
+    && Nat.beq (bitSum ((dirEdges e).map edgeCode)) (bitOr ((dirEdges e).map edgeCode))
+    && Nat.beq (bitOr ((dirEdges e).map edgeCode)) (bitOr ((dirEdges e).map edgeCodeRev))
 
 /-- V − E + F = 2, written `2V + 2F = 2E + 4` -/
 def eulerOk (e : Entry) : Bool := Nat.beq (2 * numV e + 2 * numF e) (numE2 e + 4)
@@ -107,30 +152,51 @@ def facesOfSize (e : Entry) (k : Nat) : Nat := cnt k (e.faces.map List.length)
 
 def facePts (e : Entry) (f : List Nat) : List P3 := f.map (nthP e.verts)
 
-/-- Newell's area vector `Σ pᵢ × pᵢ₊₁` (= 2·area·outward unit normal of a planar polygon) -/
+/-- Newell's area vector `Σ pᵢ × pᵢ₊₁` (= 2·area·unit normal of a planar polygon, pointing to
+    the side from which it is seen counter-clockwise) -/
 def newell (ps : List P3) : P3 :=
   (cycPairs ps).foldl (fun acc pq => acc.add (pq.1.cross pq.2)) P3.zero
 
-/-- signed distance of `v` from the plane through `p0` with normal `n` is ≤ 10⁻⁹ -/
-def belowPlane (n p0 : P3) (nn : Int) (v : P3) : Bool :=
-  let d := n.dot (v.sub p0)
-  intLe d 0 || intLe (d * d) (unit18 * nn)
+/-- `d = n·v − c0` (with `c0 = n·p0`: |n| × signed distance from the face plane) is ≤ 0 or
+    `d² ≤ 10¹⁸·|n|²`, i.e. the signed distance is ≤ 10⁻⁹ -/
+def belowPlane (nx ny nz c0 tolnn : Int) (v : P3) : Bool :=
+  forceInt (Int.sub (Int.add (Int.add (Int.mul nx v.x) (Int.mul ny v.y)) (Int.mul nz v.z)) c0)
+    fun d => isNonpos d || intLe (Int.mul d d) tolnn
 
-/-- distance of `v` from that plane is ≤ 10⁻⁹ -/
-def onPlane (n p0 : P3) (nn : Int) (v : P3) : Bool :=
-  let d := n.dot (v.sub p0)
-  intLe (d * d) (unit18 * nn)
+/-- `d² ≤ 10¹⁸·|n|²`: the distance from the face plane is ≤ 10⁻⁹ -/
+def onPlane (nx ny nz c0 tolnn : Int) (v : P3) : Bool :=
+  forceInt (Int.sub (Int.add (Int.add (Int.mul nx v.x) (Int.mul ny v.y)) (Int.mul nz v.z)) c0)
+    fun d => intLe (Int.mul d d) tolnn
 
-/-- convexity certificate: every face is planar with a non-zero area vector, and all vertices
-    of the solid lie on the inner side of (or on) its plane -/
+/-- convexity certificate: every face has a non-zero area vector `n`, is planar, and all
+    vertices of the solid lie on the inner side of (or on) its plane -/
 def convexOk (e : Entry) : Bool :=
   e.faces.all fun f =>
     match facePts e f with
     | [] => false
     | p0 :: rest =>
       let n := newell (p0 :: rest)
-      let nn := n.normSq
-      intLt 0 nn && e.verts.all (belowPlane n p0 nn) && rest.all (onPlane n p0 nn)
+      forceInt n.x fun nx => forceInt n.y fun ny => forceInt n.z fun nz =>
+      forceInt (nx * p0.x + ny * p0.y + nz * p0.z) fun c0 =>
+      forceInt (nx * nx + ny * ny + nz * nz) fun nn =>
+      forceInt (unit18 * nn) fun tolnn =>
+        intLt 0 nn && e.verts.all (belowPlane nx ny nz c0 tolnn)
+          && rest.all (onPlane nx ny nz c0 tolnn)
+
+/-- **reference definition** of `convexOk` with plain vector algebra -/
+def convexOkRef (e : Entry) : Bool :=
+  e.faces.all fun f =>
+    match facePts e f with
+    | [] => false
+    | p0 :: rest =>
+      let n := newell (p0 :: rest)
+      decide (0 < n.normSq)
+        && e.verts.all (fun v =>
+            let d := n.dot (v.sub p0)
+            decide (d ≤ 0) || decide (d * d ≤ unit18 * n.normSq))
+        && rest.all (fun v =>
+            let d := n.dot (v.sub p0)
+            decide (d * d ≤ unit18 * n.normSq))
 
 /-- fan triangles `(p0, pᵢ, pᵢ₊₁)` of a polygon -/
 def fan : List P3 → List (P3 × P3 × P3)
@@ -140,29 +206,33 @@ def fan : List P3 → List (P3 × P3 × P3)
 def surfaceTris (e : Entry) : List (P3 × P3 × P3) := e.faces.flatMap fun f => fan (facePts e f)
 
 /-- six times the enclosed volume: `Σ det(a,b,c)` over the surface triangles, in (10¹⁸)³ -/
-def vol6 (e : Entry) : Int := (surfaceTris e).foldl (fun acc t => acc + det3 t.1 t.2.1 t.2.2) 0
+def vol6 (e : Entry) : Int :=
+  (surfaceTris e).foldl (fun acc t => acc + det3 t.1 t.2.1 t.2.2) 0
 
-def unitVolumeOk (e : Entry) : Bool := intLe (intAbs (vol6 e - sixUnitVol)) sixVolTol
+/-- `|vol − 1| ≤ 10⁻⁹` -/
+def unitVolumeOk (e : Entry) : Bool :=
+  forceInt (vol6 e) fun v => intLe (intAbs (v - sixUnitVol)) sixVolTol
 def positiveVolume (e : Entry) : Bool := intLt 0 (vol6 e)
 
+/-- squared distance of two vertices given by index -/
 def sqDist (vs : List P3) (ab : Nat × Nat) : Int := ((nthP vs ab.1).sub (nthP vs ab.2)).normSq
 
-/-- all edges have one length (within 10⁻⁹ relative) -/
-def equalEdgesOk (e : Entry) : Bool :=
-  match (dirEdges e).map (sqDist e.verts) with
+/-- all numbers of a non-empty list are positive and agree with the first (`nearSq`) -/
+def allNearFirst : List Int → Bool
   | [] => false
-  | l0 :: t => intLt 0 l0 && t.all (nearSq l0)
+  | l0 :: t => forceInt l0 fun a => intLt 0 a && t.all (nearSq a)
 
-/-- every face is a regular polygon: equal sides and equal short diagonals (together with
-    planarity and convexity from `convexOk`) -/
-def regularFacesOk (e : Entry) : Bool :=
-  e.faces.all fun f =>
-    (match (cycPairs f).map (sqDist e.verts) with
-      | [] => false
-      | l0 :: t => intLt 0 l0 && t.all (nearSq l0))
-    && (match (cycPairs2 f).map (sqDist e.verts) with
-      | [] => false
-      | l0 :: t => intLt 0 l0 && t.all (nearSq l0))
+/-- all edges have one length (within 10⁻⁹ relative) -/
+def equalEdgesOk (e : Entry) : Bool := allNearFirst ((dirEdges e).map (sqDist e.verts))
+
+/-- in every face with more than three corners all short diagonals `pᵢ pᵢ₊₂` have one length.
+    A planar convex polygon (`convexOk`) with equal sides (`equalEdgesOk`) and equal short
+    diagonals has equal angles, i.e. is regular; an equilateral triangle is regular. -/
+def equalDiagonalsOk (e : Entry) : Bool :=
+  e.faces.all fun f => Nat.ble f.length 3 || allNearFirst ((cycPairs2 f).map (sqDist e.verts))
+
+/-- equal edge lengths and regular faces -/
+def regularOk (e : Entry) : Bool := equalEdgesOk e && equalDiagonalsOk e
 
 /-- centroid of the solid as numerator/denominator: `Σ det·(a+b+c)` and `4·Σ det`
     (centroid × 10¹⁸ = num / den) -/
@@ -171,8 +241,8 @@ def centroidNum (e : Entry) : P3 :=
     (fun acc t => acc.add (P3.smul (det3 t.1 t.2.1 t.2.2) ((t.1.add t.2.1).add t.2.2))) P3.zero
 def centroidDen (e : Entry) : Int := 4 * vol6 e
 
-/-- for one face: `(n·(D·p0 − C), |n|²)` — the distance from the centroid `C/D` to the face
-    plane is the first component divided by `D·|n|` -/
+/-- for one face: `(n·(D·p0 − C), |n|²)`; the distance from the centroid `C/D` to the face plane
+    is the first component divided by `D·|n|` -/
 def faceHeight (e : Entry) (C : P3) (D : Int) (f : List Nat) : Int × Int :=
   match facePts e f with
   | [] => (0, 0)
@@ -183,24 +253,37 @@ def faceHeight (e : Entry) (C : P3) (D : Int) (f : List Nat) : Int × Int :=
 /-- an insphere centred at the centroid exists: all face planes are at one positive distance
     from the centroid (squared distances agree within 2·10⁻⁹ relative) -/
 def insphereOk (e : Entry) : Bool :=
-  let C := centroidNum e
-  let D := centroidDen e
-  match e.faces.map (faceHeight e C D) with
+  forceInt (centroidNum e).x fun cx => forceInt (centroidNum e).y fun cy =>
+  forceInt (centroidNum e).z fun cz => forceInt (centroidDen e) fun D =>
+  match e.faces.map (faceHeight e ⟨cx, cy, cz⟩ D) with
   | [] => false
   | (h0, n0) :: t =>
+    forceInt h0 fun h0 => forceInt n0 fun n0 =>
     intLt 0 D && intLt 0 h0 && intLt 0 n0 &&
-      t.all fun hn => intLt 0 hn.1 && intLt 0 hn.2 && nearRatio (h0 * h0) n0 (hn.1 * hn.1) hn.2
+      t.all fun hn => forceInt hn.1 fun h => forceInt hn.2 fun nn =>
+        intLt 0 h && intLt 0 nn && nearRatio (h0 * h0) n0 (h * h) nn
 
-/-- two vertex lists are the same point set up to 10⁻⁹ (and have the same length) -/
+/-- two vertex lists are the same point set up to 10⁻⁹ (and have the same length);
+    identical lists are recognised first (they trivially satisfy the second clause) -/
 def sameVerts (a b : List P3) : Bool :=
   let close (p q : P3) : Bool := intLe (p.sub q).normSq unit18
-  Nat.beq a.length b.length && a.all (fun p => b.any (close p)) && b.all (fun p => a.any (close p))
+  decide (a = b) ||
+    (Nat.beq a.length b.length && a.all (fun p => b.any (close p)) && b.all (fun p => a.any (close p)))
+
+/-- a repository record that cites a family (`source` = file, `ref` = name in that family)
+    has the vertex set of the cited entry; records without `source` are not constrained -/
+def sourceOk (lookup : String → List Entry) (e : Entry) : Bool :=
+  e.source == "" ||
+    (match (lookup e.source).find? (fun r => r.name == e.ref) with
+     | none => false
+     | some r => sameVerts e.verts r.verts)
 
 /-- what every table entry must satisfy: a `ConvexPolyhedron` record whose face certificate is a
-    closed oriented convex surface on exactly its vertices, with positive volume and Euler
-    characteristic 2 -/
+    closed oriented convex surface on exactly its vertices, with Euler characteristic 2 and
+    positive volume -/
 def polyhedronOk (e : Entry) : Bool :=
-  usesExactlyVerts e && closedOriented e && convexOk e && eulerOk e && positiveVolume e
+  e.type == "ConvexPolyhedron"
+    && usesExactlyVerts e && closedOriented e && eulerOk e && convexOk e && positiveVolume e
 
 end Tab
 
@@ -268,5 +351,38 @@ namespace Tab
 def matchesTextbook (s : Textbook.Solid) (e : Entry) : Bool :=
   Nat.beq (numV e) s.v && Nat.beq (numE2 e) (2 * s.e) && Nat.beq (numF e) s.f
     && s.faces.all (fun kc => Nat.beq (facesOfSize e kc.1) kc.2)
+
+end Tab
+
+namespace Tab
+
+/-- the entry's name is in the hand-entered list and the entry has that row's counts -/
+def textbookOk (rows : List Textbook.Solid) (e : Entry) : Bool :=
+  match rows.find? (fun s => s.name == e.name) with
+  | none => false
+  | some s => matchesTextbook s e
+
+/-- every hand-entered row is the name of exactly one entry, and there are no other entries -/
+def coversTextbook (rows : List Textbook.Solid) (t : List Entry) : Bool :=
+  Nat.beq t.length rows.length
+    && rows.all (fun s => Nat.beq ((t.filter fun e => e.name == s.name).length) 1)
+
+/-! ### the per-table obligations of C18 -/
+
+def platonicOk (e : Entry) : Bool :=
+  polyhedronOk e && textbookOk Textbook.platonic e && unitVolumeOk e && regularOk e
+def archimedeanOk (e : Entry) : Bool :=
+  polyhedronOk e && textbookOk Textbook.archimedean e && unitVolumeOk e && regularOk e
+def catalanOk (e : Entry) : Bool :=
+  polyhedronOk e && textbookOk Textbook.catalan e && unitVolumeOk e && insphereOk e
+def johnsonOk (e : Entry) : Bool := polyhedronOk e && regularOk e
+def plainOk (e : Entry) : Bool := polyhedronOk e
+def repositoryOk (lookup : String → List Entry) (e : Entry) : Bool :=
+  polyhedronOk e && sourceOk lookup e
+
+/-- names of a table are pairwise different -/
+def namesNodup : List String → Bool
+  | [] => true
+  | a :: t => !(t.any (· == a)) && namesNodup t
 
 end Tab
